@@ -325,6 +325,9 @@ def run(ctx):
     ctx.rule("R05.5", "journal file lock released on every exit (shared with C07 R07.3)")
     J.rule_release(ctx, "R05.5")
     J.rule_write_under_lock(ctx, "R05.5")
+    ctx.rule("R05.10", "survivors take over a dead holder's lock: the waiter observes the lock itself (not the journal behind a symlink - a dangling relative link "
+             "would never be judged stale), restarts its timer when the lock changes hands, and removes only after a full grace period (the R07.6 clauses)")
+    J.rule_takeover(ctx, "R05.10")
     ctx.rule("R05.9", "a worker dying while it WAITS for the journal lock leaves the holder's lock alone: acquire() releases only what this call created")
     J.rule_release_only_own_lock(ctx, "R05.9")
     ctx.rule("R05.8", "readers survive a torn last record: a line without its newline is skipped (the deferred error is raised only for a further line inside the "
